@@ -685,7 +685,11 @@ class Engine(object):
                 nm = self.u.fresh_bool("path")
                 qf = [f for f in tl if not _has_quantifier(f)]
                 qs = [f for f in tl if _has_quantifier(f)]
-                prefix.append(nm == z3.And(qf) if qf else nm == z3.BoolVal(True))
+                # SOUNDNESS: the name only *implies* its path's facts (one of the names holds, see the disjunction
+                # below).  An equivalence with the quantifier-free part alone would force a name true whenever that
+                # part holds, also on executions that took another branch whose distinguishing condition is quantified.
+                if qf:
+                    prefix.append(z3.Implies(nm, z3.And(qf)))
                 for f in qs:
                     prefix.append(z3.Implies(nm, f))
                 tails.append(nm)
